@@ -27,7 +27,14 @@ git apply "$src/patch.diff" || { echo "PATCH DOES NOT APPLY"; cd /; git -C /repo
 files=$(git diff --name-only | tr '\n' ' ')
 pkgs=$(git diff --name-only | xargs -n1 dirname | sort -u | sed 's|^|./|' | tr '\n' ' ')
 # root/websocket tests bind fixed ports: run them in a private network namespace so that concurrent runs do not collide
-suite_out=$(unshare -n sh -c "ip link set lo up; timeout 1500 go test -vet=off -count=1 -timeout 8m -skip 'TestCodecConnWriteNext\$' . ./internal/... ./codec/... ./bytes/... ./util/... 2>&1")
+suite_out=$(unshare -n sh -c "ip link set lo up; timeout 1500 go test -vet=off -count=1 -timeout 8m -skip 'TestCodecConn(Async)?WriteNext\$' . ./internal/... ./codec/... ./bytes/... ./util/... 2>&1")
+# the two racy repository tests (they hang about one run in four on the unchanged tree) are retried on their own
+racy=FAIL
+for try in 1 2 3 4; do
+  if unshare -n sh -c "ip link set lo up; timeout 200 go test -vet=off -count=1 -timeout 3m -run 'TestCodecConn(Async)?WriteNext\$' . >/dev/null 2>&1"; then racy=ok; break; fi
+done
+[ "$racy" = ok ] || suite_out="$suite_out
+--- FAIL: TestCodecConnWriteNext/TestCodecConnAsyncWriteNext (4 attempts)"
 if echo "$files" | grep -q 'multicast\|net/'; then
   suite_out="$suite_out
 $(timeout 600 go test -vet=off -count=1 -timeout 8m ./multicast/... ./net/... 2>&1)"
